@@ -25,9 +25,9 @@ def _auto(prog, reg, repo):
     return _cache["auto"]
 
 
-def ob(name, ok, detail=None, size=None, witness=None, exhaustive=True, checker_error=False):
+def ob(name, ok, detail=None, size=None, witness=None, exhaustive=True, checker_error=False, bounded=False):
     return {"name": name, "ok": bool(ok), "detail": detail, "size": size, "witness": witness, "exhaustive": exhaustive,
-            "checker_error": checker_error}
+            "checker_error": checker_error, "bounded": bounded}
 
 
 # ------------------------------------------------------------------------------------------------
@@ -219,24 +219,32 @@ def f_json_identity(prog, reg, repo):
                size=len(a))]
 
 
-def f_rt(script, name):
+def f_rt(script, name, bounded=False, args_quick=(), args_thorough=()):
     """An enumeration that needs the repository interpreter: pyvc/enum_<script>.py prints one JSON line."""
-    def run(prog, reg, repo):
+    def run(prog, reg, repo, tier="quick"):
         env = dict(os.environ)
         env["VERIF_REPO"] = repo
-        p = subprocess.run([REPO_PY, os.path.join(VERIF, "pyvc", f"enum_{script}.py")], capture_output=True, text=True,
-                           env=env, timeout=1200)
+        extra = list(args_thorough if tier == "thorough" else args_quick)
+        p = subprocess.run([REPO_PY, os.path.join(VERIF, "pyvc", f"enum_{script}.py")] + extra, capture_output=True,
+                           text=True, env=env, timeout=3000)
         line = [l for l in p.stdout.splitlines() if l.startswith("{")]
         if not line:
-            return [ob(f"{name}", False, (p.stderr or p.stdout)[-400:], witness={"stderr": (p.stderr or "")[-300:]})]
+            return [ob(f"{name}", False, (p.stderr or p.stdout)[-400:], witness={"stderr": (p.stderr or "")[-300:]},
+                       bounded=bounded)]
         r = json.loads(line[-1])
-        return [ob(x["name"], x["ok"], x.get("detail"), x.get("size"), x.get("witness")) for x in r["results"]]
+        return [ob(x["name"], x["ok"], x.get("detail"), x.get("size"), x.get("witness"), bounded=bounded,
+                   exhaustive=x.get("exhausted", True)) for x in r["results"]]
+    run.takes_tier = True
     return run
 
 
+f_traces = f_rt("parser_traces", "parser-traces", bounded=True, args_quick=("--bound", "3"),
+                args_thorough=("--bound", "4", "--time-limit", "1500"))
+
+
 PROPS = {
-    "C01": dict(finite=[f_table_extraction, f_modes, f_lookahead_targets]),
-    "C02": dict(finite=[f_table_extraction, f_siblings, f_bisim]),
+    "C01": dict(finite=[f_table_extraction, f_modes, f_lookahead_targets, f_traces]),
+    "C02": dict(finite=[f_table_extraction, f_siblings, f_bisim, f_traces]),
     "C03": dict(finite=[f_build_once, f_corpus(["ast"], "ast")]),
     "C04": dict(finite=[]),
     "C05": dict(finite=[f_json_identity]),
@@ -248,11 +256,11 @@ PROPS = {
     "C11": dict(finite=[]),
     "C12": dict(finite=[]),
     "C13": dict(finite=[f_docstring_states]),
-    "C14": dict(finite=[f_modes, f_siblings, f_corpus(["errors"], "errors")]),
+    "C14": dict(finite=[f_modes, f_siblings, f_corpus(["errors"], "errors"), f_traces]),
     "C15": dict(finite=[]),
     "C16": dict(finite=[]),
     "C17": dict(finite=[f_corpus(["source", "ast", "pickles", "errors"], "events")]),
-    "C18": dict(finite=[f_table_extraction, f_build_once, f_lookahead_targets, f_corpus(["tokens"], "tokens")]),
+    "C18": dict(finite=[f_table_extraction, f_build_once, f_lookahead_targets, f_corpus(["tokens"], "tokens"), f_traces]),
     "C19": dict(finite=[]),
 }
 
@@ -260,7 +268,10 @@ PROPS = {
 def run(pid, prog, reg, tier, repo):
     out = []
     for f in PROPS.get(pid, {}).get("finite", []):
-        out.extend(f(prog, reg, repo))
+        if getattr(f, "takes_tier", False):
+            out.extend(f(prog, reg, repo, tier))
+        else:
+            out.extend(f(prog, reg, repo))
     return out
 
 
